@@ -340,3 +340,50 @@ func VerifBroadcastLateReader() {
 	b.Close()
 	zzverif.Cover("broadcast_late_reader_done")
 }
+
+// A bystander leaves while a Broadcast is waiting for a slow subscriber: four subscribers in subscription order - Z
+// (reads promptly, leaves), A (starts reading late: more values outstanding than its buffer holds, so a Broadcast call
+// waits for it), S1 and S2 (read promptly). Z's departure during that wait takes nothing from, and duplicates nothing
+// for, the subscribers behind A in the fan-out: S1, S2 and A receive every value exactly once, in call order.
+//
+//verif:harness prop=C11 name=broadcast_bystander_leaves_while_waiting threads=12 sched=delay preempt=1 t_preempt=2 unwind=20 witness=lenient
+func VerifBroadcastBystanderLeaves() {
+	b := New[vMsg]()
+	z := &vConsumer{ch: make(chan vMsg)}
+	a := &vConsumer{ch: make(chan vMsg)}
+	s1 := &vConsumer{ch: make(chan vMsg)}
+	s2 := &vConsumer{ch: make(chan vMsg)}
+	ctxZ, leaveZ := context.WithCancel(context.Background())
+	b.Subscribe(ctxZ, z.ch)
+	b.Subscribe(context.Background(), a.ch)
+	b.Subscribe(context.Background(), s1.ch)
+	b.Subscribe(context.Background(), s2.ch)
+	go vConsume(z)
+	go vConsume(s1)
+	go vConsume(s2)
+	n := 4 // A's buffer (2, scaled from 10) + 1 held by its forwarder: the 4th call waits
+	if !zzverif.Symbolic() {
+		n += 8 // native replay runs with the real buffer of 10
+	}
+	done := make(chan struct{}, 1)
+	go func() {
+		for i := 1; i <= n; i++ {
+			b.Broadcast(vMsg{i, i})
+		}
+		done <- struct{}{}
+	}()
+	zzverif.WaitQuiescent() // the last Broadcast call is waiting for room in A's buffer
+	leaveZ()
+	zzverif.WaitQuiescent()
+	go vConsume(a) // A catches up
+	<-done
+	zzverif.WaitQuiescent()
+	for _, c := range []*vConsumer{a, s1, s2} {
+		zzverif.Assert(len(c.got) == n, "every_staying_subscriber_gets_every_value_once")
+		for i := 0; i < len(c.got) && i < n; i++ {
+			zzverif.Assert(c.got[i].id == i+1, "staying_subscriber_order")
+		}
+	}
+	b.Close()
+	zzverif.Cover("broadcast_bystander_leaves_done")
+}
